@@ -64,14 +64,18 @@ func runC17(e *Env) {
 	e.S.Floor("C17.store", 8)
 
 	var entries []*ssa.Function
+	seenEntry := map[*ssa.Function]bool{}
 	for _, pkg := range ValuePkgs {
-		for _, n := range parserEntries[pkg] {
-			if f := e.Fn("C17.ro", pkg, n); f != nil {
+		// the recorded parsers and every other exported function of the package that takes an input text (the compare
+		// and latest helpers of sem, whatever is added later)
+		for _, f := range parserEntryFuncs(e, "C17.ro", pkg) {
+			if !seenEntry[f] {
+				seenEntry[f] = true
 				entries = append(entries, f)
 			}
 		}
 	}
-	if f := e.Fn("C17.ro", "sem", "DefaultComparePreRelease"); f != nil {
+	if f := e.Fn("C17.ro", "sem", "DefaultComparePreRelease"); f != nil && !seenEntry[f] {
 		entries = append(entries, f)
 	}
 	// the unmarshal / scan methods receive the caller's bytes before any parser does
